@@ -26,6 +26,7 @@ pub struct RecConnector {
     pub reply: Vec<u8>, // bytes the fake upstream sends back before closing
     pub fail_msg: StdMutex<String>, // error text when `fail` is set
     pub local_v6: AtomicBool,      // report an IPv6 outgoing socket (as a real connector does with set_local_addr)
+    pub vanish: AtomicBool,        // the upstream goes away right after the connection is established, reading nothing
 }
 
 #[async_trait]
@@ -45,7 +46,13 @@ impl Connector for RecConnector {
         let log = self.log.clone();
         let name = self.name.clone();
         let reply = self.reply.clone();
+        let vanish = self.vanish.load(Ordering::SeqCst);
         let h = tokio::spawn(async move {
+            if vanish {
+                drop(b);
+                log.lock().unwrap().upstream_bytes.push((name, vec![]));
+                return;
+            }
             let _ = b.write_all(&reply).await;
             let mut got = vec![];
             let _ = b.read_to_end(&mut got).await;
@@ -104,7 +111,7 @@ pub fn world(conns: &[(String, Vec<Feature>)], history_size: usize) -> World {
     }
     let mut recs = vec![];
     for (name, feats) in conns {
-        let r = Arc::new(RecConnector { name: name.clone(), feats: feats.clone(), fail: AtomicBool::new(false), log: log.clone(), tasks: tasks.clone(), reply: vec![], fail_msg: StdMutex::new("recording connector: upstream refused".into()), local_v6: AtomicBool::new(false) });
+        let r = Arc::new(RecConnector { name: name.clone(), feats: feats.clone(), fail: AtomicBool::new(false), log: log.clone(), tasks: tasks.clone(), reply: vec![], fail_msg: StdMutex::new("recording connector: upstream refused".into()), local_v6: AtomicBool::new(false), vanish: AtomicBool::new(false) });
         st.connectors.insert(name.clone(), r.clone());
         recs.push(r);
     }
